@@ -38,6 +38,13 @@ def gate_cases(env, tier):
         cases.append(("CNOT(%d)" % t, ("CNOT", (t,)), 2, rq.controlled_x(2, (1 - t,), t), 1 / 9, False))
         cases.append(("CNOT_Heralded(%d)" % t, ("CNOT_Heralded", (t,)), 2, rq.controlled_x(2, (1 - t,), t),
                       1 / 16, True))
+    for t in (0, 1):            # integer-valued numpy targets are accepted like ints
+        cases.append(("CNOT(np.int64(%d))" % t, ("CNOT", (np.int64(t),)), 2, rq.controlled_x(2, (1 - t,), t), 1 / 9, False))
+        cases.append(("CNOT_Heralded(np.int32(%d))" % t, ("CNOT_Heralded", (np.int32(t),)), 2,
+                      rq.controlled_x(2, (1 - t,), t), 1 / 16, True))
+    for t in (0, 1, 2):
+        cs = tuple(q for q in range(3) if q != t)
+        cases.append(("CCNOT(np.int64(%d))" % t, ("CCNOT", (np.int64(t),)), 3, rq.controlled_x(3, cs, t), 1 / 72, False))
     cases.append(("CNOT()", ("CNOT", ()), 2, rq.controlled_x(2, (0,), 1), 1 / 9, False))
     cases.append(("CNOT_Heralded()", ("CNOT_Heralded", ()), 2, rq.controlled_x(2, (0,), 1), 1 / 16, True))
     cases.append(("CCZ", ("CCZ", ()), 3, rq.controlled_z(3, (0, 1, 2)), 1 / 72, False))
